@@ -25,12 +25,12 @@ def result_defined_sin_sq (theta a : ℝ) : Prop :=
   ((4 : ℝ) * theta) ≠ 0
 /-- value returned by `_analytical_integration("sin(theta/a)**2", theta, a)` (line 88) -/
 def analytic_sin_sq (theta a : ℝ) : ℝ :=
-  ((a * (((2 : ℝ) * theta) - (Real.sin ((2 : ℝ) * theta)))) / ((4 : ℝ) * theta))
+  (if theta = (0 : ℝ) then (a * ((Real.sin ((0 : ℝ) / a)) ^ 2)) else ((a * (((2 : ℝ) * theta) - (Real.sin ((2 : ℝ) * theta)))) / ((4 : ℝ) * theta)))
 def analytic_defined_sin_sq (theta a : ℝ) : Prop :=
-  ((4 : ℝ) * theta) ≠ 0
-/-- the function `_numerical_integration("sin(theta/a)**2", theta, a)` (line 102) hands to `scipy.integrate.quad`, at `t` -/
+  (if theta = (0 : ℝ) then a ≠ 0 else ((4 : ℝ) * theta) ≠ 0)
+/-- the function `_numerical_integration("sin(theta/a)**2", theta, a)` (line 105) hands to `scipy.integrate.quad`, at `t` -/
 def numeric_integrand_sin_sq (F : ℝ → ℝ) (theta a t : ℝ) : ℝ :=
-  ((Real.sin (((F t) * theta) / a)) ^ 2)
+  ((Real.sin ((((F (t / a)) * theta) * a) / a)) ^ 2)
 def numeric_integrand_defined_sin_sq (F : ℝ → ℝ) (theta a t : ℝ) : Prop :=
   a ≠ 0
 /-- the value component of `scipy.integrate.quad(<that function>, (0 : ℝ), a)`, read as the integral (assumption on scipy) -/
@@ -53,14 +53,14 @@ def result_defined_sin_half_pow4 (theta a : ℝ) : Prop :=
   ((16 : ℝ) * theta) ≠ 0
 /-- value returned by `_analytical_integration("sin(theta/(2*a))**4", theta, a)` (line 88) -/
 def analytic_sin_half_pow4 (theta a : ℝ) : ℝ :=
-  ((a * ((((6 : ℝ) * theta) - ((8 : ℝ) * (Real.sin theta))) + (Real.sin ((2 : ℝ) * theta)))) / ((16 : ℝ) * theta))
+  (if theta = (0 : ℝ) then (a * ((Real.sin ((0 : ℝ) / ((2 : ℝ) * a))) ^ 4)) else ((a * ((((6 : ℝ) * theta) - ((8 : ℝ) * (Real.sin theta))) + (Real.sin ((2 : ℝ) * theta)))) / ((16 : ℝ) * theta)))
 def analytic_defined_sin_half_pow4 (theta a : ℝ) : Prop :=
-  ((16 : ℝ) * theta) ≠ 0
-/-- the function `_numerical_integration("sin(theta/(2*a))**4", theta, a)` (line 102) hands to `scipy.integrate.quad`, at `t` -/
+  (if theta = (0 : ℝ) then ((2 : ℝ) * a) ≠ 0 else ((16 : ℝ) * theta) ≠ 0)
+/-- the function `_numerical_integration("sin(theta/(2*a))**4", theta, a)` (line 105) hands to `scipy.integrate.quad`, at `t` -/
 def numeric_integrand_sin_half_pow4 (F : ℝ → ℝ) (theta a t : ℝ) : ℝ :=
-  ((Real.sin (((F t) * theta) / ((2 : ℝ) * a))) ^ 4)
+  ((Real.sin ((((F (t / a)) * theta) * a) / ((2 : ℝ) * a))) ^ 4)
 def numeric_integrand_defined_sin_half_pow4 (F : ℝ → ℝ) (theta a t : ℝ) : Prop :=
-  ((2 : ℝ) * a) ≠ 0
+  a ≠ 0 ∧ ((2 : ℝ) * a) ≠ 0
 /-- the value component of `scipy.integrate.quad(<that function>, (0 : ℝ), a)`, read as the integral (assumption on scipy) -/
 def numeric_sin_half_pow4 (F : ℝ → ℝ) (theta a : ℝ) : ℝ :=
   ∫ t in ((0 : ℝ))..(a), numeric_integrand_sin_half_pow4 F theta a t
@@ -81,12 +81,12 @@ def result_defined_sin_mul_sin_half_sq (theta a : ℝ) : Prop :=
   (2 : ℝ) ≠ 0 ∧ theta ≠ 0
 /-- value returned by `_analytical_integration("sin(theta/a)*sin(theta/(2*a))**2", theta, a)` (line 88) -/
 def analytic_sin_mul_sin_half_sq (theta a : ℝ) : ℝ :=
-  ((a * ((Real.sin (theta / (2 : ℝ))) ^ 4)) / theta)
+  (if theta = (0 : ℝ) then (a * ((Real.sin ((0 : ℝ) / a)) * ((Real.sin ((0 : ℝ) / ((2 : ℝ) * a))) ^ 2))) else ((a * ((Real.sin (theta / (2 : ℝ))) ^ 4)) / theta))
 def analytic_defined_sin_mul_sin_half_sq (theta a : ℝ) : Prop :=
-  (2 : ℝ) ≠ 0 ∧ theta ≠ 0
-/-- the function `_numerical_integration("sin(theta/a)*sin(theta/(2*a))**2", theta, a)` (line 102) hands to `scipy.integrate.quad`, at `t` -/
+  (if theta = (0 : ℝ) then a ≠ 0 ∧ ((2 : ℝ) * a) ≠ 0 else (2 : ℝ) ≠ 0 ∧ theta ≠ 0)
+/-- the function `_numerical_integration("sin(theta/a)*sin(theta/(2*a))**2", theta, a)` (line 105) hands to `scipy.integrate.quad`, at `t` -/
 def numeric_integrand_sin_mul_sin_half_sq (F : ℝ → ℝ) (theta a t : ℝ) : ℝ :=
-  ((Real.sin (((F t) * theta) / a)) * ((Real.sin (((F t) * theta) / ((2 : ℝ) * a))) ^ 2))
+  ((Real.sin ((((F (t / a)) * theta) * a) / a)) * ((Real.sin ((((F (t / a)) * theta) * a) / ((2 : ℝ) * a))) ^ 2))
 def numeric_integrand_defined_sin_mul_sin_half_sq (F : ℝ → ℝ) (theta a t : ℝ) : Prop :=
   a ≠ 0 ∧ ((2 : ℝ) * a) ≠ 0
 /-- the value component of `scipy.integrate.quad(<that function>, (0 : ℝ), a)`, read as the integral (assumption on scipy) -/
@@ -109,14 +109,14 @@ def result_defined_sin_half_sq (theta a : ℝ) : Prop :=
   ((2 : ℝ) * theta) ≠ 0
 /-- value returned by `_analytical_integration("sin(theta/(2*a))**2", theta, a)` (line 88) -/
 def analytic_sin_half_sq (theta a : ℝ) : ℝ :=
-  ((a * (theta - (Real.sin theta))) / ((2 : ℝ) * theta))
+  (if theta = (0 : ℝ) then (a * ((Real.sin ((0 : ℝ) / ((2 : ℝ) * a))) ^ 2)) else ((a * (theta - (Real.sin theta))) / ((2 : ℝ) * theta)))
 def analytic_defined_sin_half_sq (theta a : ℝ) : Prop :=
-  ((2 : ℝ) * theta) ≠ 0
-/-- the function `_numerical_integration("sin(theta/(2*a))**2", theta, a)` (line 102) hands to `scipy.integrate.quad`, at `t` -/
+  (if theta = (0 : ℝ) then ((2 : ℝ) * a) ≠ 0 else ((2 : ℝ) * theta) ≠ 0)
+/-- the function `_numerical_integration("sin(theta/(2*a))**2", theta, a)` (line 105) hands to `scipy.integrate.quad`, at `t` -/
 def numeric_integrand_sin_half_sq (F : ℝ → ℝ) (theta a t : ℝ) : ℝ :=
-  ((Real.sin (((F t) * theta) / ((2 : ℝ) * a))) ^ 2)
+  ((Real.sin ((((F (t / a)) * theta) * a) / ((2 : ℝ) * a))) ^ 2)
 def numeric_integrand_defined_sin_half_sq (F : ℝ → ℝ) (theta a t : ℝ) : Prop :=
-  ((2 : ℝ) * a) ≠ 0
+  a ≠ 0 ∧ ((2 : ℝ) * a) ≠ 0
 /-- the value component of `scipy.integrate.quad(<that function>, (0 : ℝ), a)`, read as the integral (assumption on scipy) -/
 def numeric_sin_half_sq (F : ℝ → ℝ) (theta a : ℝ) : ℝ :=
   ∫ t in ((0 : ℝ))..(a), numeric_integrand_sin_half_sq F theta a t
@@ -137,12 +137,12 @@ def result_defined_cos_sq (theta a : ℝ) : Prop :=
   ((4 : ℝ) * theta) ≠ 0
 /-- value returned by `_analytical_integration("cos(theta/a)**2", theta, a)` (line 88) -/
 def analytic_cos_sq (theta a : ℝ) : ℝ :=
-  ((a * (((2 : ℝ) * theta) + (Real.sin ((2 : ℝ) * theta)))) / ((4 : ℝ) * theta))
+  (if theta = (0 : ℝ) then (a * ((Real.cos ((0 : ℝ) / a)) ^ 2)) else ((a * (((2 : ℝ) * theta) + (Real.sin ((2 : ℝ) * theta)))) / ((4 : ℝ) * theta)))
 def analytic_defined_cos_sq (theta a : ℝ) : Prop :=
-  ((4 : ℝ) * theta) ≠ 0
-/-- the function `_numerical_integration("cos(theta/a)**2", theta, a)` (line 102) hands to `scipy.integrate.quad`, at `t` -/
+  (if theta = (0 : ℝ) then a ≠ 0 else ((4 : ℝ) * theta) ≠ 0)
+/-- the function `_numerical_integration("cos(theta/a)**2", theta, a)` (line 105) hands to `scipy.integrate.quad`, at `t` -/
 def numeric_integrand_cos_sq (F : ℝ → ℝ) (theta a t : ℝ) : ℝ :=
-  ((Real.cos (((F t) * theta) / a)) ^ 2)
+  ((Real.cos ((((F (t / a)) * theta) * a) / a)) ^ 2)
 def numeric_integrand_defined_cos_sq (F : ℝ → ℝ) (theta a t : ℝ) : Prop :=
   a ≠ 0
 /-- the value component of `scipy.integrate.quad(<that function>, (0 : ℝ), a)`, read as the integral (assumption on scipy) -/
@@ -165,12 +165,12 @@ def result_defined_sin_mul_cos (theta a : ℝ) : Prop :=
   ((2 : ℝ) * theta) ≠ 0
 /-- value returned by `_analytical_integration("sin(theta/a)*cos(theta/a)", theta, a)` (line 88) -/
 def analytic_sin_mul_cos (theta a : ℝ) : ℝ :=
-  ((a * ((Real.sin theta) ^ 2)) / ((2 : ℝ) * theta))
+  (if theta = (0 : ℝ) then (a * ((Real.sin ((0 : ℝ) / a)) * (Real.cos ((0 : ℝ) / a)))) else ((a * ((Real.sin theta) ^ 2)) / ((2 : ℝ) * theta)))
 def analytic_defined_sin_mul_cos (theta a : ℝ) : Prop :=
-  ((2 : ℝ) * theta) ≠ 0
-/-- the function `_numerical_integration("sin(theta/a)*cos(theta/a)", theta, a)` (line 102) hands to `scipy.integrate.quad`, at `t` -/
+  (if theta = (0 : ℝ) then a ≠ 0 ∧ a ≠ 0 else ((2 : ℝ) * theta) ≠ 0)
+/-- the function `_numerical_integration("sin(theta/a)*cos(theta/a)", theta, a)` (line 105) hands to `scipy.integrate.quad`, at `t` -/
 def numeric_integrand_sin_mul_cos (F : ℝ → ℝ) (theta a t : ℝ) : ℝ :=
-  ((Real.sin (((F t) * theta) / a)) * (Real.cos (((F t) * theta) / a)))
+  ((Real.sin ((((F (t / a)) * theta) * a) / a)) * (Real.cos ((((F (t / a)) * theta) * a) / a)))
 def numeric_integrand_defined_sin_mul_cos (F : ℝ → ℝ) (theta a t : ℝ) : Prop :=
   a ≠ 0
 /-- the value component of `scipy.integrate.quad(<that function>, (0 : ℝ), a)`, read as the integral (assumption on scipy) -/
@@ -193,12 +193,12 @@ def result_defined_sin (theta a : ℝ) : Prop :=
   theta ≠ 0
 /-- value returned by `_analytical_integration("sin(theta/a)", theta, a)` (line 88) -/
 def analytic_sin (theta a : ℝ) : ℝ :=
-  ((a * ((1 : ℝ) - (Real.cos theta))) / theta)
+  (if theta = (0 : ℝ) then (a * (Real.sin ((0 : ℝ) / a))) else ((a * ((1 : ℝ) - (Real.cos theta))) / theta))
 def analytic_defined_sin (theta a : ℝ) : Prop :=
-  theta ≠ 0
-/-- the function `_numerical_integration("sin(theta/a)", theta, a)` (line 102) hands to `scipy.integrate.quad`, at `t` -/
+  (if theta = (0 : ℝ) then a ≠ 0 else theta ≠ 0)
+/-- the function `_numerical_integration("sin(theta/a)", theta, a)` (line 105) hands to `scipy.integrate.quad`, at `t` -/
 def numeric_integrand_sin (F : ℝ → ℝ) (theta a t : ℝ) : ℝ :=
-  (Real.sin (((F t) * theta) / a))
+  (Real.sin ((((F (t / a)) * theta) * a) / a))
 def numeric_integrand_defined_sin (F : ℝ → ℝ) (theta a t : ℝ) : Prop :=
   a ≠ 0
 /-- the value component of `scipy.integrate.quad(<that function>, (0 : ℝ), a)`, read as the integral (assumption on scipy) -/
@@ -221,14 +221,14 @@ def result_defined_cos_half_sq (theta a : ℝ) : Prop :=
   ((2 : ℝ) * theta) ≠ 0
 /-- value returned by `_analytical_integration("cos(theta/(2*a))**2", theta, a)` (line 88) -/
 def analytic_cos_half_sq (theta a : ℝ) : ℝ :=
-  ((a * (theta + (Real.sin theta))) / ((2 : ℝ) * theta))
+  (if theta = (0 : ℝ) then (a * ((Real.cos ((0 : ℝ) / ((2 : ℝ) * a))) ^ 2)) else ((a * (theta + (Real.sin theta))) / ((2 : ℝ) * theta)))
 def analytic_defined_cos_half_sq (theta a : ℝ) : Prop :=
-  ((2 : ℝ) * theta) ≠ 0
-/-- the function `_numerical_integration("cos(theta/(2*a))**2", theta, a)` (line 102) hands to `scipy.integrate.quad`, at `t` -/
+  (if theta = (0 : ℝ) then ((2 : ℝ) * a) ≠ 0 else ((2 : ℝ) * theta) ≠ 0)
+/-- the function `_numerical_integration("cos(theta/(2*a))**2", theta, a)` (line 105) hands to `scipy.integrate.quad`, at `t` -/
 def numeric_integrand_cos_half_sq (F : ℝ → ℝ) (theta a t : ℝ) : ℝ :=
-  ((Real.cos (((F t) * theta) / ((2 : ℝ) * a))) ^ 2)
+  ((Real.cos ((((F (t / a)) * theta) * a) / ((2 : ℝ) * a))) ^ 2)
 def numeric_integrand_defined_cos_half_sq (F : ℝ → ℝ) (theta a t : ℝ) : Prop :=
-  ((2 : ℝ) * a) ≠ 0
+  a ≠ 0 ∧ ((2 : ℝ) * a) ≠ 0
 /-- the value component of `scipy.integrate.quad(<that function>, (0 : ℝ), a)`, read as the integral (assumption on scipy) -/
 def numeric_cos_half_sq (F : ℝ → ℝ) (theta a : ℝ) : ℝ :=
   ∫ t in ((0 : ℝ))..(a), numeric_integrand_cos_half_sq F theta a t
